@@ -5,9 +5,10 @@ CONSTANTS
   Kind = "nameaddr"
   Atoms <- AtomsExp
   Prefix <- PfxExp
-  MaxLen = 17
+  MaxLen = 16
+  MaxAtoms = 99
   Cfgs <- CfgsNA8
   Junk = 34
   EmitOn = TRUE
-INVARIANTS ResumeEqFresh Stable OffsSane Emit
+INVARIANTS ResumeEqFresh Stable OffsSane Emit EmitTwo EmitByte
 CHECK_DEADLOCK FALSE
